@@ -181,6 +181,9 @@ func aggregateE1(rep *Reporter, prop string, cases []*e1Case, res *e1Result, bou
 	rep.Cov["pool_values_total"] = poolSum
 	rep.Cov["distinct_outcomes"] = outcomes
 	rep.Cov["goderive_runs"] = res.GenRuns
+	if histProps[prop] {
+		rep.Cov["regeneration"] = fmt.Sprintf("every batch was also regenerated over the derived.gen.go of an older version of its sources (structs cut to their first field): %d batches reproduced the from-scratch bytes (already explored), %d left different bytes and were compiled and explored again", res.HistSame, res.HistDiffer)
+	}
 	rep.Cov["compiler_runs"] = res.Builds
 	rep.Cov["exhaustive"] = true
 	rep.Cov["explanation"] = "every explored execution is an execution of the real generated code (goderive built from the working tree, output compiled by the Go compiler); exhaustive within the stated type and value bounds"
